@@ -6,6 +6,12 @@ BASELINE_OFF = json.load(open('/root/.vp/BASELINE.json'))['cmd']
 
 # id -> (engine, category, technique, text, note, design_ref)
 CHECKS = {
+ 'C18': ('libmon', 'exploration',
+   'runtime monitoring of the generated tab_list function executed by real dash and bash with echo replaced by an argument-recording stub; canary files as injection monitors; reference row set written from the statement',
+   'Held on 600 (quick) / 15 000 (thorough) payloads x dash, bash and bash --posix: every echo call received exactly one word, no canary file appeared, no stderr, status 0, rows sorted bytewise and equal to the reference set plus the self row whenever the text is free of the tab-writer control bytes. A deliberately unsafe function is run first to prove the canaries and the stub can fire.',
+   'Ends at the word handed to echo (what a real echo prints is not observed); non-interactive shells only; fidelity only for texts without TAB/VT/FF/0xFF and without non-space Unicode whitespace at field edges.',
+   'DESIGN.md C18'),
+
  'C01': ('brokermon', 'exploration',
    'gate-scheduled histories through the verif hook judged online against a one-sided reference model, I/O probes at hooked state; free-running stress with porcupine linearizability check; -race',
    'Held on every executed history: ~230 directed scenarios plus 6 000 (quick) / 60 000 (thorough) random histories and, in thorough, all 88 740 histories of length <= 4 over a 17-symbol alphabet; every admission decision was taken in a harness-chosen serialisation order and compared with the must-refuse rules, and probes confirmed that I/O flows exactly to the streams the decisions admitted. Exploration, not proof: histories longer than the generated ones and schedules inside b.mu are not covered.',
